@@ -608,6 +608,9 @@ class BuiltinMixin:
         return r
 
     # -- list -----------------------------------------------------------
+    def lm___len__(self, recv, args, kwargs, st, node):
+        return self.bi_len([recv], {}, st, node)
+
     def lm_append(self, recv, args, kwargs, st, node):
         raise EngineError("list.append must be a statement on a local variable")
 
